@@ -124,9 +124,7 @@ def explore(spec, prop, mon_classes, probe=None, seed=0, max_states=200000, max_
                           "frontier_left": len(frontier), "depth_fully_covered": len(frontier[0][0]) - 1}
             break
         hist, ops = frontier.popleft()
-        ops = list(ops)
-        if seed:
-            rng.shuffle(ops)
+        ops = list(ops)   # fixed, simplest-first order: the explored set must not depend on VERIF_SEED
         for op in ops:
             h2 = hist + (op,)
             w2, viols = replay(spec, h2, mon_classes)
